@@ -262,6 +262,7 @@ func (fx *fnExec) applyContract(st *state, in ssa.Instruction, ct *Contract, inf
 	names := fx.bindNames(info, args)
 	pre := st.clone()
 	cpre := &specCtx{fx: fx, cur: pre, old: pre, names: names, pkg: info.pkg}
+	cpre.ssaArgs = fx.ssaArgMap(info, in)
 	anchor := fx.anchorName(in)
 	if anchor == "" {
 		anchor = mode + "(" + info.short + ")"
@@ -379,6 +380,9 @@ func (fx *fnExec) measure0() string {
 // evalLoc for the function's own modifies clause (single location expected per expr, but may be several)
 func (fx *fnExec) evalLoc(c *specCtx, e Expr, src string) loc {
 	ls := fx.evalLocs(c, e, src)
+	if len(ls) == 0 {
+		return loc{ghost: "!none"}
+	}
 	if len(ls) != 1 {
 		// keep all: append the rest
 		for _, l := range ls[1:] {
@@ -418,6 +422,26 @@ func (fx *fnExec) evalLocs(c *specCtx, e Expr, src string) []loc {
 		return fx.addrLocs(fx.addrOfRef(v.term, pt.Elem()))
 	case *ECall:
 		switch x.Fn {
+		case "pointee":
+			// pointee(v): the object a pointer boxed in interface value v points to
+			id, ok := x.Args[0].(*EIdent)
+			if !ok {
+				panic(specErr("pointee() needs a parameter name"))
+			}
+			if sv, ok := c.ssaArgs[id.Name]; ok {
+				if mi, ok := sv.(*ssa.MakeInterface); ok {
+					if _, isPtr := mi.X.Type().Underlying().(*types.Pointer); isPtr {
+						o := fx.operand(c.cur, mi.X)
+						if o.addr != nil {
+							return fx.addrLocs(o.addr)
+						}
+						return fx.addrLocs(fx.addrOfRef(o.term, deref(mi.X.Type())))
+					}
+					return nil // boxed non-pointer: nothing reachable to modify
+				}
+			}
+			v := c.eval(x.Args[0])
+			return []loc{{opaque: v.term}}
 		case "elems":
 			v := c.eval(x.Args[0])
 			et := v.typ.Underlying().(*types.Slice).Elem()
@@ -474,6 +498,15 @@ func (fx *fnExec) addrLocs(a *addr) []loc {
 
 func (fx *fnExec) havocLoc(st *state, l loc, in ssa.Instruction) {
 	switch {
+	case l.opaque != "":
+		// object not visible in this function: permitted iff our own modifies names the same pointee
+		var alts []string
+		for _, m := range fx.modLocs {
+			if m.opaque != "" {
+				alts = append(alts, "(= "+m.opaque+" "+l.opaque+")")
+			}
+		}
+		fx.addObl("assigns", "pointee#"+fx.anchorName(in), fx.allProps(), or(alts...), in.Pos(), "callee modifies an object this function may not modify")
 	case l.ghost != "":
 		g := fx.g.cs.Ghosts[l.ghost]
 		st.ghost[l.ghost] = fx.fresh("G_"+l.ghost, ghostSort(g.Sort))
@@ -534,7 +567,7 @@ func (fx *fnExec) execGo(st *state, x *ssa.Go) {
 func (fx *fnExec) execBuiltin(st *state, in ssa.Instruction, b *ssa.Builtin, cc *ssa.CallCommon, rtype types.Type) val {
 	switch b.Name() {
 	case "ssa:deferstack":
-		return val{term: "unit", typ: rtype}
+		return val{term: fx.d.Zero(rtype), typ: rtype}
 	case "ssa:wrapnilchk":
 		return fx.operand(st, cc.Args[0])
 	case "len":
@@ -606,3 +639,24 @@ func (fx *fnExec) objInvAtReturn(st *state, x *ssa.Return) {}
 func (fx *fnExec) posOf(in ssa.Instruction) token.Pos { return in.Pos() }
 
 func (fx *fnExec) fieldProtoCheck(st *state, addrV ssa.Value, in ssa.Instruction, isStore bool) {}
+
+// ssaArgMap maps callee parameter names to the SSA argument values at this call site.
+func (fx *fnExec) ssaArgMap(info *calleeInfo, in ssa.Instruction) map[string]ssa.Value {
+	m := map[string]ssa.Value{}
+	ci, ok := in.(ssa.CallInstruction)
+	if !ok {
+		return m
+	}
+	cc := ci.Common()
+	var args []ssa.Value
+	if cc.IsInvoke() {
+		args = append(args, cc.Value)
+	}
+	args = append(args, cc.Args...)
+	for i, a := range args {
+		if i < len(info.names) {
+			m[info.names[i]] = a
+		}
+	}
+	return m
+}
